@@ -73,11 +73,24 @@ def untyped_builder():
         ("deref", lambda: {"$deref": {"main_reg": Name("a"), "constant_offset": Name("k")}},
          lambda n: n.name == "$deref" and [c.name for c in n.children] == ["main_reg", "constant_offset"]
          and [c.children[0].name.ident for c in n.children] == ["a", "k"]),
+        # YAML scalars that are falsy in Python (the integer 0 -- also what an unquoted 0x0 loads as --, the empty text) are values
+        ("deref-zero", lambda: {"$deref": {"main_reg": Name("a"), "constant_offset": 0}},
+         lambda n: [c.name for c in n.children] == ["main_reg", "constant_offset"] and n.children[0].children[0].name.ident == "a"
+         and [c.name for c in n.children[1].children] == [0] and type(n.children[1].children[0].name) is int),
+        ("deref-zero-first", lambda: {"$deref": {"main_reg": 0, "register_multiplier": Name("b"), "constant_multiplier": 0, "constant_offset": 0}},
+         lambda n: [c.name for c in n.children] == ["main_reg", "register_multiplier", "constant_multiplier", "constant_offset"]
+         and [c.children[0].name for c in (n.children[0], n.children[2], n.children[3])] == [0, 0, 0]),
+        ("dict-list-zero", lambda: {Name("w"): [0, Name("v2"), 0]},
+         lambda n: n.name.ident == "w" and [getattr(c.name, "ident", c.name) for c in n.children] == [0, "v2", 0]),
+        ("int-item", lambda: 0, lambda n: n.name == 0 and type(n.name) is int and n.children is None),
     ]
     for cid, mk, post in cases:
         run = sym_run(lambda mk=mk: J.builder.PatternNodeBuilderNoParents(mk(), sc).build())
         for i, p in enumerate(run.paths):
-            ok = p.kind == "ret" and bool(post(p.value)) and p.value.shared_context is sc
+            try:
+                ok = p.kind == "ret" and bool(post(p.value)) and p.value.shared_context is sc
+            except (TypeError, AttributeError, IndexError):     # the node does not even have the required shape
+                ok = False
             obs.append(simple_ob(f"PatternNodeBuilderNoParents:{cid}:p{i}:POST", PB, "POST",
                                  f"[{cid}] node carries the item's name, its children are the body's items in order, one shared context",
                                  ok, ["C01", "C03", "C06"], detail=repr(p.value)[:120], witness=cid))
